@@ -40,10 +40,11 @@ func (s *Spec) termType(t *Term, tn *TypeNames) string {
 }
 
 type Method struct {
-	Rule   string
-	Name   string
-	Params []string // Go types
-	Ret    string
+	Rule     string
+	Name     string
+	Params   []string // Go types
+	Ret      string
+	ListSeps []string // per parameter: separator token name when the term is a @list, else ""
 }
 
 // Methods returns one action method per (rule, distinct parameter list): two
@@ -56,8 +57,12 @@ func (s *Spec) Methods(tn *TypeNames) []Method {
 		n := 0
 		for _, p := range r.Prods {
 			params := make([]string, len(p.Terms))
+			seps := make([]string, len(p.Terms))
 			for i, t := range p.Terms {
 				params[i] = s.termType(t, tn)
+				if t.Kind == KList && t.Sep.Kind == KTok {
+					seps[i] = t.Sep.Name
+				}
 			}
 			key := strings.Join(params, ",")
 			if seen[key] {
@@ -69,7 +74,7 @@ func (s *Spec) Methods(tn *TypeNames) []Method {
 				name = fmt.Sprintf("on_%s__%d", r.Name, n)
 			}
 			n++
-			out = append(out, Method{Rule: r.Name, Name: name, Params: params, Ret: tn.Node[r.Ret%len(tn.Node)]})
+			out = append(out, Method{Rule: r.Name, Name: name, Params: params, Ret: tn.Node[r.Ret%len(tn.Node)], ListSeps: seps})
 		}
 	}
 	return out
@@ -190,4 +195,34 @@ func SortedNames(m map[string]string) []string {
 	}
 	sort.Strings(ns)
 	return ns
+}
+
+// NormalizeLists removes productions whose parameter types equal those of an
+// earlier production of the same rule while their @list positions or
+// separators differ: both would have to share one action method, and the
+// harness could then not tell where the separators (which lox drops from the
+// list value) were consumed.
+func (s *Spec) NormalizeLists() {
+	tn := stageBTypes
+	for _, r := range s.Rules {
+		seen := map[string]string{}
+		var kept []*Prod
+		for _, p := range r.Prods {
+			params := make([]string, len(p.Terms))
+			seps := make([]string, len(p.Terms))
+			for i, t := range p.Terms {
+				params[i] = s.termType(t, tn)
+				if t.Kind == KList {
+					seps[i] = "L:" + t.Sep.Name
+				}
+			}
+			key, sk := strings.Join(params, ","), strings.Join(seps, ",")
+			if prev, ok := seen[key]; ok && prev != sk {
+				continue
+			}
+			seen[key] = sk
+			kept = append(kept, p)
+		}
+		r.Prods = kept
+	}
 }
